@@ -643,7 +643,9 @@ func (g *fgen) nonConst(e string) string {
 	return e
 }
 
-func (g *fgen) isParamLoopVar(v string) bool { return strings.HasPrefix(v, "i") || strings.HasPrefix(v, "j") }
+func (g *fgen) isParamLoopVar(v string) bool {
+	return strings.HasPrefix(v, "i") || strings.HasPrefix(v, "j")
+}
 
 func (g *fgen) nested(n int) {
 	g.ind++
